@@ -1,6 +1,6 @@
 (* C04 — Leftmost-first search picks the leftmost start, then the earliest-registered pattern. *)
-From DV Require Import Model.Base Model.Nfa Model.BwBuild Model.BwSearch Model.Api Model.Spec
-     Model.Cert Proofs.Leftmost Proofs.BwLeftmost Theory.LmfSpec.
+From DV Require Import Model.Base Model.Nfa Model.BwBuild Model.BwSearch Model.Utf8 Model.CwBuild Model.Api Model.Spec
+     Model.Cert Proofs.Leftmost Proofs.BwLeftmost Theory.LmfSpec Proofs.Utf8Props Proofs.CwCert Proofs.CwLeftmost.
 Local Open Scope N_scope.
 
 (* (1) On specifications, for every duplicate-free sequence of non-empty patterns (order is
@@ -47,6 +47,20 @@ Proof.
   exact (bw_leftmost_correct_lemma V veqb Hv A (effective V pvs) C h Hb).
 Qed.
 Print Assumptions bw_lmf_correct.
+
+(* the same for the character-wise automaton, with byte offsets *)
+Theorem cw_lmf_correct :
+  forall (V : Type) (veqb : V -> V -> bool), (forall a b, veqb a b = true -> a = b) ->
+  forall (A : cw_automaton V) (pvs : list (list N * V)),
+    (forall p v, In (p, v) pvs -> p <> []) -> NoDup (map fst pvs) ->
+    cw_lm_cert_ok veqb A (effective V pvs) = true ->
+  forall cs : list N, Forall scalar cs ->
+    cw_leftmost_find_iter V A (encode_utf8 cs) = Ok (map (to_bytes V cs) (spec_lmf V pvs cs)).
+Proof.
+  intros V veqb Hv A pvs H1 H2 C cs Hs. rewrite (spec_lmf_is_lml_of_effective V pvs H1 H2 cs).
+  exact (cw_leftmost_correct_lemma V veqb Hv A (effective V pvs) C cs Hs).
+Qed.
+Print Assumptions cw_lmf_correct.
 
 (* Non-vacuity: registration order matters; "abcd" is shadowed by the earlier "ab". *)
 Definition ex_pvs : list (list N * Z) :=
